@@ -2,6 +2,7 @@
 # Runs checks against a scratch copy of /repo with a patch applied (monitor validation).
 # usage: tools/mutant.sh <patch.diff | 'sed-expr@file'> <ID> [more IDs...]   (env TIER=quick|thorough, EXTRA="--cases N")
 P="$1"; shift
+case "$P" in *@*) ;; /*) ;; *) P="$(pwd)/$P";; esac
 S="$(mktemp -d /tmp/vf-scratch-XXXXXX)"
 rsync -a --exclude .git --exclude '*.pyc' --exclude __pycache__ --exclude docs --exclude tests/schema /repo/ "$S/"
 cd "$S" || exit 2
